@@ -108,6 +108,14 @@ func cmdVerify(args []string) {
 			}
 		}
 	}
+	vc, vs := vacuityFindings(all)
+	for _, v := range vc {
+		fmt.Println("VACUOUS:", v)
+		bad++
+	}
+	for _, v := range vs {
+		fmt.Println("VACUITY-SUSPECT:", v)
+	}
 	fmt.Printf("%d obligations, %d not as expected, %.1fs\n", len(all), bad, time.Since(t0).Seconds())
 	if bad > 0 {
 		fmt.Println("scratch:", dir)
